@@ -51,6 +51,16 @@ Qed.
 Lemma flat_map_single {A} : forall l : list A, flat_map (fun x => [x]) l = l.
 Proof. induction l; simpl; congruence. Qed.
 
+(* equal suffix lengths: the concatenation determines both parts *)
+Lemma app_eq_len_tail {A} : forall (a c b d : list A),
+  length b = length d -> a ++ b = c ++ d -> a = c /\ b = d.
+Proof.
+  intros a c b d Hl He.
+  assert (Hla : length a = length c).
+  { apply (f_equal (@length A)) in He. rewrite !app_length in He. lia. }
+  apply app_eq_len; assumption.
+Qed.
+
 (* ------------------------------------------------------------------ the storage digest *)
 Lemma digest_input_words : forall st : xstorage,
   storage_digest_input st = flat_map (fun kv => key_words (fst kv) ++ [snd kv]) st.
@@ -124,12 +134,25 @@ Section StateId.
     - discriminate.
   Qed.
 
-  Lemma path_section_constraints : forall ex c, x_sliced ex <> None ->
-    (In (W c) (snapshot_input_3 (D128 := D128) true ex) <-> constraint_of ex c).
+  (* the path section: the sliced conditions, then the block fields (all but the timestamp) *)
+  Definition cond_items (ex : xstate) : list (item D128) :=
+    flat_map (fun p => if zmem (fst p) (sliced_set ex) then [W (snd p)] else []) (enumerate (x_conds ex)).
+  Definition block_items (ex : xstate) : list (item D128) :=
+    map W (block_ids ex [BBasefee; BChainid; BCoinbase; BDifficulty; BGaslimit; BNumber]).
+
+  Lemma path_section_parts : forall ex,
+    snapshot_input_3 (D128 := D128) true ex = cond_items ex ++ block_items ex.
   Proof.
-    intros ex c Hs. unfold snapshot_input_3, constraint_of, sliced_is_none, sliced_set, enumerate.
+    intros ex. unfold snapshot_input_3, cond_items, block_items, block_ids.
+    destruct (sliced_is_none ex); reflexivity.
+  Qed.
+
+  Lemma path_section_constraints : forall ex c, x_sliced ex <> None ->
+    (In (W c) (cond_items ex) <-> constraint_of ex c).
+  Proof.
+    intros ex c Hs. unfold cond_items, constraint_of, sliced_set, enumerate.
     destruct (x_sliced ex) as [sl|]; [| congruence].
-    cbn [app]. cbv zeta. rewrite path_items_in. cbn [Z.add]. reflexivity.
+    rewrite path_items_in. cbn [Z.add]. reflexivity.
   Qed.
 
   Theorem state_id_identical : forall n a b i,
@@ -143,8 +166,9 @@ Section StateId.
     injection Eb as E0 E1 E2 E3.
     apply H64_inj in E0, E1, E2, E3.
     assert (E3' : snapshot_input_3 (D128 := D128) true a = snapshot_input_3 true b) by exact E3.
-    clear E3.
-    unfold same_identity. repeat split.
+    clear E3. rewrite !path_section_parts in E3'.
+    apply app_eq_len_tail in E3'; [| reflexivity]. destruct E3' as [E3' E4].
+    unfold same_identity. split; [| split; [| split; [| split; [split |]]]].
     - unfold snapshot_input_0 in E0. congruence.
     - unfold snapshot_input_1 in E1. cbv zeta in E1.
       apply (flat_map_chunks _ 2) in E1; [| lia | reflexivity | reflexivity].
@@ -160,6 +184,8 @@ Section StateId.
       apply path_section_constraints; [exact Sa | exact Hc].
     - intros Hc. apply path_section_constraints; [exact Sa |]. rewrite E3'.
       apply path_section_constraints; [exact Sb | exact Hc].
+    - unfold block_items, block_ids in E4. cbn [map] in E4. injection E4 as F1 F2 F3 F4 F5 F6.
+      intros fld Hf. destruct fld; [assumption .. | congruence].
   Qed.
 
   Lemma state_id_is_some : forall ex, x_sliced ex <> None -> exists i, state_id ex = Some i.
@@ -173,9 +199,10 @@ Section StateId.
     x_balance a = x_balance b -> x_code a = x_code b -> x_storage a = x_storage b ->
     x_conds a = x_conds b -> x_sliced a = Some sa -> x_sliced b = Some sb ->
     (forall i, In i sa <-> In i sb) ->
+    (forall fld, fld <> BTimestamp -> x_block a fld = x_block b fld) ->
     state_id a = state_id b /\ state_id a <> None.
   Proof.
-    intros a b sa sb Eb Ec Es Ed Sa Sb Hset.
+    intros a b sa sb Eb Ec Es Ed Sa Sb Hset Hblk.
     assert (Hz : forall i, zmem i sa = zmem i sb).
     { intros i. unfold zmem. destruct (existsb (Z.eqb i) sb) eqn:M.
       - apply existsb_exists in M. destruct M as [y [Hy Ey]]. apply existsb_exists.
@@ -187,6 +214,8 @@ Section StateId.
         congruence. }
     unfold state_id, snapshot_state, snapshot_raises, snapshot_inputs, snapshot_input_0,
       snapshot_input_1, snapshot_input_2, snapshot_input_3, sliced_is_none, sliced_set.
+    unfold block_ids. cbn [map].
+    rewrite (Hblk BBasefee), (Hblk BChainid), (Hblk BCoinbase), (Hblk BDifficulty), (Hblk BGaslimit), (Hblk BNumber) by discriminate.
     rewrite Eb, Ec, Es, Ed, Sa, Sb. cbn [andb orb]. split; [| discriminate].
     assert (F : forall cs : list (Z * Z),
                flat_map (fun p => if zmem (fst p) sa then [@W D128 (snd p)] else []) cs =
@@ -204,7 +233,7 @@ Section StateId.
     assert (U : forall ex, x_storage ex = [(10, [(KTup [0; 0; 0], 100)])] -> uniform_keys 3 ex).
     { intros ex Hx addr st k v I1 I2. rewrite Hx in I1. destruct I1 as [I1 | []].
       injection I1 as _ I1. subst st. destruct I2 as [I2 | []]. injection I2 as I2 _. subst k. reflexivity. }
-    destruct (state_id_identical 3 _ _ i (U BranchInst.hi eq_refl) (U BranchInst.lo eq_refl) Hi Hl) as [_ [_ [_ Hc]]].
+    destruct (state_id_identical 3 _ _ i (U BranchInst.hi eq_refl) (U BranchInst.lo eq_refl) Hi Hl) as [_ [_ [_ [Hc _]]]].
     assert (C : constraint_of BranchInst.hi 200).
     { unfold constraint_of. cbn. exists O. split; [left; reflexivity | reflexivity]. }
     apply Hc in C. unfold constraint_of in C. cbn in C. destruct C as [k [[Hk | []] Hn]].
@@ -227,8 +256,10 @@ Lemma same_identity_represents :
   forall (V val : Type) (ev : V -> Z -> val) (holds : V -> Z -> Prop) a b,
     same_identity a b -> forall w, represents V val ev holds a w <-> represents V val ev holds b w.
 Proof.
-  intros V val ev holds a b [Eb [Ec [Es Hc]]] w. unfold represents, concretize.
-  rewrite Eb, Ec, Es. split; intros [v [Hv Hw]]; exists v; (split; [| exact Hw]); intros c C; apply Hv, Hc, C.
+  intros V val ev holds a b [Eb [Ec [Es [Hc Hb]]]] w. unfold represents, concretize, env_fields. cbn [map].
+  rewrite Eb, Ec, Es.
+  rewrite (Hb BBasefee), (Hb BChainid), (Hb BCoinbase), (Hb BDifficulty), (Hb BGaslimit), (Hb BNumber) by discriminate.
+  split; intros [v [Hv Hw]]; exists v; (split; [| exact Hw]); intros c C; apply Hv, Hc, C.
 Qed.
 
 (* ------------------------------------------------------------------ coverage with the real state id *)
@@ -245,7 +276,6 @@ Lemma cover_snapshot :
     (forall p a q b cs, same_identity (view a) (view b) -> gamma (refresh q b) cs -> gamma (refresh p a) cs) ->
     (forall ss cs tx cs', gamma ss cs -> adm cs tx -> cstep cs tx = Some cs' ->
         exists t s', In t (targets ss) /\ In (OOk s') (sstep ss t) /\ gamma (refresh ss s') cs') ->
-    (forall q b cs, same_identity (view b) (view setup) -> gamma (refresh q b) cs -> gamma setup cs) ->
     forall d cs0 txs cs,
       gamma setup cs0 -> creach cstep adm cs0 txs cs -> (length txs <= d)%nat ->
       exists j ss, (j <= length txs)%nat /\
@@ -254,13 +284,12 @@ Lemma cover_snapshot :
                    gamma ss cs.
 Proof.
   intros SS Tgt targets sstep refresh setup CS Tx cstep adm gamma D64 D128 H64 H128 enc view n
-         I64 I128 Ienc Hsl Hu Hm Hs Hm0.
+         I64 I128 Ienc Hsl Hu Hm Hs.
   assert (Hid : forall a b, enc (state_id H64 H128 (view a)) = enc (state_id H64 H128 (view b)) ->
                             same_identity (view a) (view b)).
   { intros a b E. apply Ienc in E.
     destruct (state_id_is_some H64 H128 (view a) (Hsl a)) as [i Hi].
     apply (state_id_identical H64 H128 I64 I128 n _ _ i); auto. congruence. }
   apply cover_full; auto.
-  - intros p a q b cs E. apply Hm. apply Hid. exact E.
-  - intros q b cs E. apply Hm0. apply Hid. exact E.
+  intros p a q b cs E. apply Hm. apply Hid. exact E.
 Qed.
